@@ -617,7 +617,7 @@ package validate
 //@   ensures[C14] implies(kind(enum) == 23 && data != nil && exists(i, 0, lenOf(enum), deepEq(data, elemAt(enum, i))), result == nil)
 //@   ensures[C14] implies(kind(enum) == 23 && data != nil && !caseSensitive && isStr(data) && exists(i, 0, lenOf(enum), isStr(elemAt(enum, i)) && equalFold(strof(data), strof(elemAt(enum, i)))), result == nil)
 //@   loop 1 invariant 0 <= i && i <= lenOf(enum)
-//@   loop 1 invariant arr(values) == nil || fresh(arr(values))
+//@   loop 1 invariant arr(values) == nil || loopfresh(arr(values))
 //@   loop 1 invariant implies(data != nil, forall(j, 0, i, !deepEq(data, elemAt(enum, j))))
 //@   loop 1 invariant implies(data != nil && !caseSensitive && isStr(data), forall(j, 0, i, !(isStr(elemAt(enum, j)) && equalFold(strof(data), strof(elemAt(enum, j))))))
 //@ func Enum
